@@ -25,11 +25,23 @@ INTEGRAL = ["Bisector", "Centroid", "LargestOfMaximum", "MeanOfMaximum", "Smalle
 WEIGHTED = ["WeightedAverage", "WeightedSum"]
 TNORMS = ["AlgebraicProduct", "BoundedDifference", "DrasticProduct", "EinsteinProduct", "HamacherProduct", "Minimum", "NilpotentMinimum"]
 SNORMS = ["AlgebraicSum", "BoundedSum", "DrasticSum", "EinsteinSum", "HamacherSum", "Maximum", "NilpotentMaximum", "NormalizedSum", "UnboundedSum"]
-NONUM = {"k": "none", "neg": False, "ip": 0, "fp": 0}
-NAN = {"k": "nan", "neg": False, "ip": 0, "fp": 0}
-PINF = {"k": "inf", "neg": False, "ip": 0, "fp": 0}
-NINF = {"k": "-inf", "neg": True, "ip": 0, "fp": 0}
-ONE = {"k": "num", "neg": False, "ip": 1, "fp": 0}
+NONUM = {"k": "none", "neg": False, "hi": "", "ip": 0, "fp": 0}
+NAN = {"k": "nan", "neg": False, "hi": "", "ip": 0, "fp": 0}
+PINF = {"k": "inf", "neg": False, "hi": "", "ip": 0, "fp": 0}
+NINF = {"k": "-inf", "neg": True, "hi": "", "ip": 0, "fp": 0}
+ONE = {"k": "num", "neg": False, "hi": "", "ip": 1, "fp": 0}
+
+
+def split_int(i: int):
+    """integer part -> (hi, ip): TLC integers are 32-bit, so ten digits and more are carried as a string of leading digits + nine digits"""
+    if i < 10 ** 9:
+        return "", i
+    d = str(i)
+    return d[:-9], int(d[-9:])
+
+
+def int_part(n: dict) -> str:
+    return str(n["ip"]) if not n.get("hi") else n["hi"] + str(n["ip"]).rjust(9, "0")
 
 
 # ---- numerals ------------------------------------------------------------------------------------------------------
@@ -40,11 +52,13 @@ def num(x, dec: int) -> dict:
         return dict(NAN)
     if math.isinf(x):
         return dict(PINF if x > 0 else NINF)
-    q = Decimal(x).quantize(Decimal(1).scaleb(-dec), rounding=ROUND_HALF_EVEN)
+    import decimal
+    q = Decimal(x).quantize(Decimal(1).scaleb(-dec), rounding=ROUND_HALF_EVEN, context=decimal.Context(prec=1200))
     sign, digits, exp = q.as_tuple()
     n = int("".join(map(str, digits)))
     neg = bool(sign) or (x == 0 and math.copysign(1.0, x) < 0)
-    return {"k": "num", "neg": neg, "ip": n // 10 ** dec, "fp": n % 10 ** dec}
+    hi, ip = split_int(n // 10 ** dec)
+    return {"k": "num", "neg": neg, "hi": hi, "ip": ip, "fp": n % 10 ** dec}
 
 
 def to_float(n: dict, dec: int) -> float:
@@ -54,14 +68,14 @@ def to_float(n: dict, dec: int) -> float:
         return math.inf
     if n["k"] == "-inf":
         return -math.inf
-    s = ("-" if n["neg"] else "") + f"{n['ip']}." + str(n["fp"]).rjust(max(dec, 1), "0")
+    s = ("-" if n["neg"] else "") + f"{int_part(n)}." + str(n["fp"]).rjust(max(dec, 1), "0")
     return float(s)
 
 
 def fmt(n: dict, dec: int) -> str:
     if n["k"] != "num":
         return n["k"]
-    return ("-" if n["neg"] else "") + str(n["ip"]) + ("" if dec == 0 else "." + str(n["fp"]).rjust(dec, "0"))
+    return ("-" if n["neg"] else "") + int_part(n) + ("" if dec == 0 else "." + str(n["fp"]).rjust(dec, "0"))
 
 
 # ---- build -----------------------------------------------------------------------------------------------------------
@@ -238,10 +252,12 @@ def lex(text: str, dec: int):
                 val.append({"s": s, "n": dict({"inf": PINF, "-inf": NINF, "nan": NAN}[s]), "i": -1})
             elif _NUM.match(s) and "." in s:
                 ip, fp = s.lstrip("-").split(".")
-                val.append({"s": s, "n": {"k": "num", "neg": s.startswith("-"), "ip": int(ip), "fp": int(fp) * 10 ** (dec - len(fp)) if len(fp) <= dec else int(fp)}, "i": -1})
+                hi_, ip_ = split_int(int(ip))
+                val.append({"s": s, "n": {"k": "num", "neg": s.startswith("-"), "hi": hi_, "ip": ip_, "fp": int(fp) * 10 ** (dec - len(fp)) if len(fp) <= dec else int(fp)}, "i": -1})
             elif _NUM.match(s):
                 neg = s.startswith("-")
-                val.append({"s": s, "n": ({"k": "num", "neg": neg, "ip": abs(int(s)), "fp": 0} if dec == 0 else dict(NONUM)), "i": int(s)})
+                hi_, ip_ = split_int(abs(int(s)))
+                val.append({"s": s, "n": ({"k": "num", "neg": neg, "hi": hi_, "ip": ip_, "fp": 0} if dec == 0 else dict(NONUM)), "i": int(s) if abs(int(s)) < 2 ** 31 else -1})
             else:
                 val.append({"s": s, "n": dict(NONUM), "i": -1})
         lines.append({"ind": ind, "key": key, "val": val, "cmt": False})
@@ -253,9 +269,13 @@ def rnum(rng: random.Random, dec: int, lo=-3.0, hi=3.0, special=0.06) -> dict:
     r = rng.random()
     if r < special:
         return dict(rng.choice([NAN, PINF, NINF]))
+    if r > 0.985:       # a magnitude beyond 10^16 that binary64 holds exactly (whole numbers: representable at any number of decimals)
+        big = rng.choice([2 ** 63 + 2 ** 40, 2 ** 70 + 2 ** 30, 2 ** 54 + 4, 10 ** 22, 3 * 2 ** 60]) * rng.choice([1, -1])
+        h_, i_ = split_int(abs(big))
+        return {"k": "num", "neg": big < 0, "hi": h_, "ip": i_, "fp": 0}
     scale = 10 ** dec
     v = rng.randint(int(lo * scale), int(hi * scale))
-    return {"k": "num", "neg": v < 0 or (v == 0 and rng.random() < 0.05), "ip": abs(v) // scale, "fp": abs(v) % scale}
+    return {"k": "num", "neg": v < 0 or (v == 0 and rng.random() < 0.05), "hi": "", "ip": abs(v) // scale, "fp": abs(v) % scale}
 
 
 def rheight(rng, dec) -> dict:
@@ -266,7 +286,7 @@ def rheight(rng, dec) -> dict:
     while True:
         v = rng.randint(0, 3 * scale)
         if abs(v - scale) * 500 > scale:        # further from 1 than twice the comparison tolerance
-            return {"k": "num", "neg": False, "ip": v // scale, "fp": v % scale}
+            return {"k": "num", "neg": False, "hi": "", "ip": v // scale, "fp": v % scale}
 
 
 def rterm(rng, name, dec, classes=None, formula_vars=("x",)) -> dict:
@@ -286,7 +306,7 @@ def rterm(rng, name, dec, classes=None, formula_vars=("x",)) -> dict:
         scale = 10 ** dec
         for x in xs:
             v = x * scale // 10
-            t["p"] += [{"k": "num", "neg": v < 0, "ip": abs(v) // scale, "fp": abs(v) % scale}, rnum(rng, dec, 0.0, 1.0, special=0)]
+            t["p"] += [{"k": "num", "neg": v < 0, "hi": "", "ip": abs(v) // scale, "fp": abs(v) % scale}, rnum(rng, dec, 0.0, 1.0, special=0)]
         t["h"] = rheight(rng, dec)
     else:
         t["p"] = [rnum(rng, dec) for _ in ATTRS[cls]]
